@@ -17,7 +17,8 @@ CFG = dict(
          "2^k and 2^k+-1 up to 2^56 and random n. "
          "Histories also contain Close+Open at any moment and CRASH IMAGES (a copy of the directory whose commit log is "
          "cut to c entries with multiapp.SetOffset while the payload and digest logs keep everything; the run continues "
-         "on the image with different payloads); the harness follows the list specification spec_step2 and compares "
+         "on the image with different payloads); the harness keeps the plain payload list (restart = nothing, crash "
+         "image = truncation to c) and compares "
          "every RootAt with its own RFC 6962 reference hash (direct oracle). "
          "Non-trivial: histories of size >= 3 that is not a power of two, proofs with j >= 3, every verifier case; "
          "distinct by full case content. Falsifier: a Go verifier acceptance whose claim is false for the harness' "
@@ -41,8 +42,8 @@ CFG = dict(
         "wrap-around (agrees for sizes < 2^58; n = 0 never reaches the addressing functions since 172c7ab); "
         "NOT modelled (tie only): the digest/payload caches (read-through; the tie reads the log through them), the "
         "three appendable files as byte logs (C17/C03); Sync/Close/Open are modelled at the level of the number of "
-        "commit-log entries on disk (sync2, reopen_at, run2: SetOffset truncates since 09014a8; ResetSize leaves the "
-        "commit-log file alone until the next append is synced), incl. crash images whose payload/digest logs extend "
+        "commit-log entries on disk (sync2, reopen_at, run2: SetOffset truncates since 09014a8; ResetSize cuts the "
+        "commit log at once since 6a85281), incl. crash images whose payload/digest logs extend "
         "beyond the commit log; torn writes inside one log are C03; the stale tails of the htree level arrays",
         "hook /repo/embedded/ahtree/verif_hooks_c08.go (build tag verif, add-only): VerifNodesUpto/VerifNodesUntil/"
         "VerifLevelsAt, VerifDigests",
